@@ -31,6 +31,9 @@ type editStep struct {
 }
 
 func (p editStep) String() string {
+	if p.field == -2 {
+		return ".*"
+	}
 	if p.field >= 0 {
 		return fmt.Sprintf(".%d", p.field)
 	}
@@ -63,6 +66,11 @@ func editPlaces(sv reflect.Value, path []editStep, depth int, out *[][]editStep,
 			*out = append(*out, p)
 			*names = append(*names, n)
 			if !fv.IsNil() {
+				// ... and the struct BEHIND the pointer as a whole (`*v.F = *other.F`: the pointer stays, its target gets new content)
+				*out = append(*out, append(append([]editStep{}, p...), editStep{field: -2}))
+				*names = append(*names, "*"+n)
+			}
+			if !fv.IsNil() {
 				editPlaces(fv.Elem(), p, depth+1, out, names, n)
 			}
 		case f.Type.Kind() == reflect.Pointer && isByteSlice(f.Type.Elem()):
@@ -83,6 +91,10 @@ func resolvePlace(root reflect.Value, path []editStep) (reflect.Value, bool) {
 				return reflect.Value{}, false
 			}
 			cur = cur.Elem()
+		}
+		if st.field == -2 {
+			// cur was dereferenced above: the pointee itself is the place
+			continue
 		}
 		if st.field >= 0 {
 			if cur.Kind() != reflect.Struct || st.field >= cur.NumField() {
